@@ -102,6 +102,13 @@ class Obligation:
     n_hints: int = 0       # the last n_hints hypotheses are proved hints (tried first, alone, by the solver portfolio)
 
 
+class TaggedHint:
+    """a proof hint meant for some conjuncts of the goal only (clause numbers as in the obligation ids `label.N`)"""
+
+    def __init__(self, formula, clauses):
+        self.formula, self.clauses = formula, tuple(clauses)
+
+
 class Ctx:
     """What clause bodies see: heap access in the current and the entry state."""
 
@@ -189,10 +196,15 @@ class Engine:
         return ob
 
     def emit_with_hints(self, kind, label, st, goal, hints, note=""):
-        """prove each hint from the path condition and the earlier hints, then the goal from all of them"""
-        extra, deps = [], []
+        """prove each hint from the path condition and the earlier hints, then the goal from all of them; a hint tagged with
+        clause numbers (TaggedHint) is handed only to those conjuncts of the goal"""
+        extra, deps, tags = [], [], []
         from .spec import Instance
         for n_, h in enumerate(hints):
+            tag = None
+            if isinstance(h, TaggedHint):
+                h, tag = h.formula, h.clauses
+            tags.append(tag)
             if isinstance(h, Instance):
                 def conjuncts(f):
                     if z3.is_and(f):
@@ -202,14 +214,25 @@ class Engine:
                         yield f
                 if any(z3.eq(h.forall, c) for f in st.pc if z3.is_expr(f) for c in conjuncts(f)):
                     extra.append(h.formula)      # instance of a hypothesis: sound without a proof of its own
+                    deps.append(None)
                     continue
                 h = h.formula
             if isinstance(h, SV):
                 h = h.t
-            ob = self.emit("hint", f"{label}.h{n_}", st, h, hyps_extra=tuple(extra), split=False, depends=tuple(deps))
+            ob = self.emit("hint", f"{label}.h{n_}", st, h, hyps_extra=tuple(extra), split=False, depends=tuple(d for d in deps if d))
             deps.append(ob.oid)
             extra.append(h)
-        return self.emit(kind, label, st, goal, note=note, hyps_extra=tuple(extra), depends=tuple(deps))
+        if isinstance(goal, SV):
+            goal = goal.t
+        if any(t is not None for t in tags) and z3.is_expr(goal) and z3.is_and(goal) and goal.num_args() > 1:
+            first = None
+            for i, g in enumerate(goal.children()):
+                sel = [j for j in range(len(extra)) if tags[j] is None or i in tags[j]]
+                ob = self.emit(kind, f"{label}.{i}", st, g, note=note, hyps_extra=tuple(extra[j] for j in sel),
+                               depends=tuple(deps[j] for j in sel if deps[j]))
+                first = first or ob
+            return first
+        return self.emit(kind, label, st, goal, note=note, hyps_extra=tuple(extra), depends=tuple(d for d in deps if d))
 
     def assume_here(self, st, cond):
         """add a fact that holds at the current evaluation point (under the guards of enclosing and/or/if-expressions)"""
